@@ -418,3 +418,12 @@ def run_case(ctx, index):
         run_invariants(ctx, index)
     else:
         run_stat(ctx, index, index - p['n'])
+
+
+def stress(ctx):
+    from vm.checks import _stress
+    _stress.stress_subsample(ctx, ctx.rng('stress'))
+
+
+def san_indices(tier):
+    return list(range(0, 400 if tier == 'quick' else 6000))
